@@ -35,6 +35,7 @@ CORE_NAMES = {
     120: "C02: running node does not list itself alive (or own record ahead of the local incarnation)",
     121: "C02: refutation does not outrank the accusation", 122: "C02: no alive broadcast carrying the new incarnation", 123: "C02: health score not raised by the refutation",
     130: "C07: replaying the events does not give Members()", 131: "C07: join/leave/update grammar broken", 132: "C07: callbacks overlapped (or a member joined twice under concurrent claims)",
+    133: "C07: an event read from the library's ChannelEventDelegate after later changes no longer shows the member, address and metadata it had when it fired (the queued event aliases the live record)",
     140: "C08: a left member came back without a newer incarnation", 141: "C08: address of a live/suspect/recently-dead member changed",
     142: "C08: conflicting address claim was not (only) reported to the conflict delegate", 143: "C08: name of a left/reclaimable member could not be reused from a new address",
     144: "C08: Leave did not record the node as left", 145: "C08: departure broadcast is not the node's own leave message",
